@@ -30,7 +30,7 @@ class Result(object):
         self.nviol += 1
         self.viol_keys[key] += 1
         # keep the first few per distinct key so that a rare class is never crowded out by a frequent one
-        if self.viol_keys[key] <= 3 and len(self.violations) < 2000:
+        if self.viol_keys[key] <= 2 and len(self.violations) < 60000:
             self.violations.append(
                 dict(key=key, what=what, case=case, observed=_j(observed), expected=_j(expected), hashseed=self.hashseed)
             )
@@ -49,9 +49,9 @@ class Result(object):
         for k, n in o.viol_keys.items():
             before = self.viol_keys[k]
             self.viol_keys[k] += n
-            if before < 3:
+            if before < 2:
                 for v in o.violations:
-                    if v["key"] == k and before < 3 and len(self.violations) < 20000:
+                    if v["key"] == k and before < 2 and len(self.violations) < 60000:
                         self.violations.append(v)
                         before += 1
         for k, v in o.extra.items():
